@@ -3,7 +3,7 @@
 COQTIMEOUT ?= 1500
 JOBS ?= 16
 
-.PHONY: build coq ocaml clean
+.PHONY: build coq ocaml tie clean
 build: coq ocaml
 
 coq:
@@ -16,6 +16,16 @@ ocaml: coq
 	cp ocaml/driver.ml _build/driver.ml
 	cd _build && ocamlfind ocamlopt -w -a pj.mli pj.ml driver.ml -o driver
 
+# The source ties, for reading: translate the lookup classes of $(REPO) to Gallina and prove the tie theorems
+# against the translation.  (Every check does this itself, in a scratch directory, for the ties of its property.)
+REPO ?= /repo
+tie: coq
+	mkdir -p coq/generated
+	python3 translate/py2v.py $(REPO) lookup_enc > coq/generated/LookupEncGen.v
+	python3 translate/py2v.py $(REPO) lookup_dec > coq/generated/LookupDecGen.v
+	cd coq && for u in Enc Dec; do coqc -Q tie PJ.Tie -Q generated PJ.Gen generated/Lookup$${u}Gen.v && \
+	  coqc -Q model PJ.Model -Q tie PJ.Tie -Q generated PJ.Gen tie/Lookup$${u}Tie.v || exit 1; done
+
 clean:
 	-cd coq && [ -f Makefile ] && $(MAKE) clean --no-print-directory
-	rm -rf _build coq/Makefile coq/Makefile.conf coq/.Makefile.d
+	rm -rf _build coq/generated coq/Makefile coq/Makefile.conf coq/.Makefile.d
